@@ -167,6 +167,8 @@ func Execute(t *testing.T, plan *kernel.Plan, known map[string]bool, verbose boo
 		}()
 		synctest.Test(t, func(t *testing.T) {
 			r.simStart = time.Now()
+			seam.reset(false)
+			installSeamHooks()
 			w := newWorld(t, plan.Seed)
 			r.w = w
 			defer w.close()
@@ -181,6 +183,7 @@ func Execute(t *testing.T, plan *kernel.Plan, known map[string]bool, verbose boo
 				r.body(evs)
 			}()
 			r.res.SimNanos = int64(time.Since(r.simStart))
+			seam.off()
 			r.teardown()
 		})
 	}()
@@ -249,6 +252,10 @@ func (r *run) teardown() {
 			w.br.releasePub(h)
 			progressed = true
 		}
+		for _, y := range seam.list() {
+			seam.let(y)
+			progressed = true
+		}
 		if !progressed {
 			busy := len(w.tr.byState("running")) > 0
 			for _, a := range w.actors {
@@ -306,6 +313,7 @@ type item struct {
 	p    *simmongo.Pending
 	d    *mqttDelivery
 	h    *heldPub
+	y    *heldYield
 }
 
 func callOwner(c *call) string { return fmt.Sprintf("rpc%04d", c.id) }
@@ -346,6 +354,14 @@ func (r *run) items(f *focus) []item {
 		}
 		if f.all || f.calls[c] {
 			out = append(out, item{kind: "resp", key: fmt.Sprintf("%04d", c.id), c: c})
+		}
+	}
+	for _, y := range seam.list() {
+		if r.lagging[y.owner] && !f.lag {
+			continue
+		}
+		if f.all || f.owners[y.owner] {
+			out = append(out, item{kind: "yld", key: y.key(), y: y})
 		}
 	}
 	for _, h := range w.br.heldList() {
@@ -502,6 +518,9 @@ func (r *run) crashServer() {
 		if h.from == old.mq.name {
 			w.br.releasePub(h)
 		}
+	}
+	for _, y := range seam.list() {
+		seam.let(y)
 	}
 	// in-flight handler goroutines run into connection errors and end; give them simulated time
 	for i := 0; i < 40; i++ {
@@ -730,6 +749,11 @@ func (r *run) pump(f *focus, g *kernel.Rng, faults []MongoFault, stopAnswered bo
 			r.logf("  deliver response of %s to %s", callOwner(it.c), it.c.client)
 			r.trace.Str("resp")
 			r.deliverResp(it.c, false)
+		case "yld":
+			r.logf("  %s goes on at %s", it.y.owner, it.y.site)
+			r.trace.Str("yld").Str(it.y.site)
+			r.probe("server-scheduling-point")
+			seam.let(it.y)
 		case "pub":
 			r.logf("  publish of %s goes out: %s %s", it.h.owner, it.h.topic, string(it.h.payload))
 			r.trace.Str("pub")
@@ -749,6 +773,11 @@ func (r *run) pump(f *focus, g *kernel.Rng, faults []MongoFault, stopAnswered bo
 func (r *run) hasPending(owner string) bool {
 	for _, p := range r.w.mongo.PendingList() {
 		if p.Owner == owner {
+			return true
+		}
+	}
+	for _, y := range seam.list() {
+		if y.owner == owner {
 			return true
 		}
 	}
